@@ -147,7 +147,10 @@ ImplParts(line, strict) ==
                      value |-> ImplUnescapeString(PySlice(st, vs + 1, Len(st)))]
 
 \* Contentline.from_parts given the already encoded value text
-ImplFromParts(name, ps, valueText, sorted) ==
+\* from_parts decodes the encoded value with utf-8-sig: one leading U+FEFF of the value text is dropped (finding C07-K3)
+StripBomCL(v) == IF v # <<>> /\ v[1] = 65279 THEN Tail(v) ELSE v
+ImplFromParts(name, ps, valueText0, sorted) ==
+    LET valueText == StripBomCL(valueText0) IN
     IF ps = <<>> THEN name \o <<COLON>> \o valueText
     ELSE name \o <<SEMI>> \o ImplParamsToIcal(ps, sorted) \o <<COLON>> \o valueText
 
